@@ -319,6 +319,8 @@ def run(ctx):
              "earlier turn (necessary for `the loop computes the same result as the bounded iteration`: closures made in "
              "turn i must keep turn i's bindings)")
     d_iter = evaltables.rule_application(ctx, "C02-iteration-is-application", {"frame"})
+    # (the operands of the pending call denote what they denote in non-tail position: a variable of the frame named twice)
+    evaltables.rule_epc(ctx, "C02-iteration-is-application", operands_row=True)
 
     def _old_iter():
         from . import frames
